@@ -6,7 +6,7 @@ import networkx as nx
 
 from .. import tables
 from ..callgraph import callgraph
-from ..canon import canon, linform, single_assignments
+from ..canon import canon, linform, single_assignments, cexpr
 from ..lin import lin_eq
 from ..pm import src
 from ..q import FA, attr_stores, call_name, compare_parts, conjuncts, const, guard_facts, is_self_attr, walk_no_nested
@@ -29,10 +29,10 @@ def run(ctx):
     ctx.require(len(loops) == 1, "NestedSampler.nested_sampling_loop: expected one while loop")
     wl = loops[0]
     p = compare_parts(wl.ast.test)
-    ctx.ob("R-DOM", "C15.2", lp, "standard sampler iterates while the remaining-evidence condition strictly exceeds the tolerance", p is not None and (src(p[0]), p[1], src(p[2])) == ("self.condition", "Gt", "self.tolerance"), f"`while {src(wl.ast.test)}`")
+    ctx.ob("R-DOM", "C15.2", lp, "standard sampler iterates while the remaining-evidence condition strictly exceeds the tolerance", canon(wl.ast.test) == cexpr("self.condition > self.tolerance"), f"`while {src(wl.ast.test)}`")
     body = la.cfg.loop_body(wl.id)
     cons = [nid for nid, c in la.find_calls("self.consume_sample") if nid in body]
-    caps = [n for n in la.nodes() if n.kind == "if" and n.id in body and canon(n.ast.test) == "self.iteration >= self.max_iteration"]
+    caps = [n for n in la.nodes() if n.kind == "if" and n.id in body and canon(n.ast.test) == cexpr("self.iteration >= self.max_iteration")]
     okcap = len(caps) == 1 and any(isinstance(s, ast.Break) for s in caps[0].ast.body) and len(cons) == 1 and la.cfg.must_pass(wl.id, caps[0].id, [cons[0]]) and wl.ast.body[-1] is caps[0].ast
     ctx.ob("R-ORDER", "C15.2", lp, "iteration cap is tested after every iteration (last statement of the loop body) and breaks the loop", okcap, "")
     ctx.ob("R-ORDER", "C15.2", lp, "exactly one consume_sample per loop iteration", len(cons) == 1 and not [h for h in la.cfg.loops_containing(cons[0]) if h.id != wl.id], "")
@@ -89,10 +89,10 @@ def run(ctx):
     wl2 = [n for n in ila.nodes() if n.kind == "while"]
     ctx.require(len(wl2) == 1 and const(wl2[0].ast.test, True), "ImportanceNestedSampler.nested_sampling_loop: `while True` not found")
     fb = wl2[0].ast.body[0]
-    okb = isinstance(fb, ast.If) and sorted(canon(e) for e, t in conjuncts(fb.test, True)) == ["self.iteration >= self.min_iteration", "self.reached_tolerance"] and isinstance(fb.body[0], ast.Break)
+    okb = isinstance(fb, ast.If) and sorted(canon(e) for e, t in conjuncts(fb.test, True)) == sorted([cexpr("self.iteration >= self.min_iteration"), "self.reached_tolerance"]) and isinstance(fb.body[0], ast.Break)
     ctx.ob("R-ORDER", "C15.2", il, "importance sampler tests `reached_tolerance and iteration >= min_iteration` first in every iteration and breaks", okb, f"`{src(fb)[:90]}`")
     lb = wl2[0].ast.body[-1]
-    okl = isinstance(lb, ast.If) and canon(lb.test) == "self.iteration >= self.max_iteration" and isinstance(lb.body[0], ast.Break)
+    okl = isinstance(lb, ast.If) and canon(lb.test) == cexpr("self.iteration >= self.max_iteration") and isinstance(lb.body[0], ast.Break)
     ctx.ob("R-ORDER", "C15.2", il, "iteration cap is the last statement of every iteration and breaks", okl, f"`{src(lb)[:80]}`")
     crit = ila.find(lambda s: isinstance(s, ast.Assign) and any(is_self_attr(t, "criterion") for t in s.targets))
     upd = ila.find_calls("self.update_evidence")
@@ -150,7 +150,7 @@ def run(ctx):
     oer = prog.cls(tables.OS_).methods["compute_evidence_ratio"]
     inl = single_assignments(oer.node)
     rr = [n for n in walk_no_nested(oer.node) if isinstance(n, ast.Return)]
-    okoe = len(rr) == 1 and canon(rr[0].value, inline=inl) == "log_evidence_from_ins_samples(self.samples[self.samples['logL'] >= threshold]) - self.state.log_evidence"
+    okoe = len(rr) == 1 and canon(rr[0].value, inline=inl) == cexpr("log_evidence_from_ins_samples(self.samples[self.samples['logL'] >= threshold]) - self.state.log_evidence")
     ctx.ob("R-SIB", "C15.4", oer, "sample-store evidence ratio = log Z(samples at/above the threshold) - log Z", okoe, f"`{canon(rr[0].value, inline=inl) if rr else None}`")
 
     # idempotence (importance sampler)
